@@ -86,7 +86,7 @@ class Token(object):
         return True
 
 
-def execute(version, script, token, user_plug, seed, thr_of=None, keybits=1024, chunk='random', burst=False, key_form='spki'):
+def execute(version, script, token, user_plug, seed, thr_of=None, keybits=1024, chunk='random', burst=False, key_form='spki', second=None):
     from minecraft.networking.packets import Packet
     from minecraft.networking.packets import clientbound, serverbound
     from minecraft.exceptions import IgnorePacket
@@ -99,7 +99,9 @@ def execute(version, script, token, user_plug, seed, thr_of=None, keybits=1024, 
 
     pending_burst, burst_seen, deferred = [0], [0], [0]
 
-    def factory(idx, sess):
+    def factory(idx, sess, script=script):
+        if idx >= 1 and second is not None:
+            script = second             # the script of the connection an exception handler opens after the first one failed
         sc = TracingScript(run, prof, [])
         steps = [('expect', 2)]
         for j, st in enumerate(script):
@@ -186,6 +188,9 @@ def execute(version, script, token, user_plug, seed, thr_of=None, keybits=1024, 
                     message_id=pkt.message_id, successful=True, data=data))
                 raise IgnorePacket
             c.register_packet_listener(take_over, clientbound.login.PluginRequestPacket, early=True)
+        if second is not None:
+            from minecraft.exceptions import LoginDisconnect
+            c.register_exception_handler(lambda exc, exc_info: c.connect(), LoginDisconnect)
         c.connect()
     run.go(scenario)
     run.info = info
@@ -327,6 +332,33 @@ def run(chk):
                        'script': row['script']})
         if i == 7:
             chk.sample({'script': row['script'], 'version': version, 'frames': frames, 'outcome': outcome})
+
+    # ---- a login that fails after the server has switched compression (and / or encryption) on, retried from an exception
+    #      handler (which by-passes disconnect()): the new connection starts from scratch - plain, uncompressed
+    for j in range(12 if quick else 120):
+        plug = bool(j % 2)
+        version = rng.choice(plug_versions if plug else old_versions)
+        first = []
+        if j % 3 != 1:
+            first.append(['comp', j % 5])
+        if j % 3 != 0:
+            first.append(['enc', bool(j % 2)])
+        if j % 4 == 0:
+            first.reverse()
+        first.append(['disc', 'json'])
+        second = [['succ']] if j % 2 else [['comp', (j + 2) % 5], ['succ']]
+        run_ = execute(version, first, False, False, chk.seed * 577 + j, second=second)
+        chk.traces += 1
+        chk.case(('retry-from-handler', j))
+        heads = [[p['t'] for p in sc.parsed[:2]] for sc in run_.scripts]
+        bad_frames = [p['t'] for sc in run_.scripts[1:] for p in sc.parsed if p['t'] in ('other', 'undecodable') or 'trailing' in p]
+        entered = len(run_.scripts) == 2 and any(p['t'] in ('keep_alive',) for p in run_.scripts[1].parsed) or \
+            (len(run_.scripts) == 2 and run_.scripts[1].finished())
+        if len(run_.scripts) != 2 or heads[1:] != [['handshake', 'login_start']] or bad_frames or run_.scripts[1].de.errors or not entered:
+            chk.violation('login:retry-from-handler', 'first login %s failed and an exception handler reconnected (protocol %d): the second '
+                          'connection received %r (undecodable / unexpected frames %r, deframer errors %r), %d connections'
+                          % (json.dumps(first), version, heads[1:], bad_frames[:3], run_.scripts[1].de.errors[:1] if len(run_.scripts) > 1 else None,
+                             len(run_.scripts)), {'first': first, 'second': second, 'version': version})
 
     # ---- longer random scripts (I->S only)
     n_rand = 150 if quick else 1500
